@@ -39,6 +39,8 @@ forgets a fact at every re-assignment and at every call that could write through
             forwards the `Err` of read_command without writing ERROR/REJECTED
   READ-N    Common::read_commands returns Ok only through the `received == n_commands` test, one push per
             count (premise of the `unwrap` in read_command)
+  WIRE      keyword tables: Command::from_str / AuthMechanism::from_str map exactly the specification's
+            keywords to their variants, and Display / as_str write each variant with its own keyword
   PANIC     R-PANIC over the handshake modules (server, common, command, auth_mechanism): every overflow /
             bounds assert, unwrap/expect, slice index, drain and explicit panic is discharged by a recognised
             dominating guard or by a reviewed entry of the table below (keyed by function + construct +
@@ -459,10 +461,9 @@ def identity_seeds(f, body, owner_root):
     return seeds
 
 
-def uid_equal_evidence(f, body, vf, b, id_locals):
-    """(True, '') when block b is only reached where `client_uid == Some(<number parsed from the identity>)`
+def uid_equal_evidence(f, body, st, id_locals):
+    """(True, '') when the facts `st` say that `client_uid == Some(<number parsed from the identity>)`
     evaluated to true; id_locals = locals from which the claimed identity must derive"""
-    st = vf.state_at_term(b) or {}
     why = "not on the true edge of a recognised credential comparison"
     for k, vals in st.items():
         if vals != frozenset(["true"]) or k[1]:
@@ -481,9 +482,8 @@ def uid_equal_evidence(f, body, vf, b, id_locals):
     return False, why
 
 
-def known_evidence(f, body, vf, b):
-    """block b is only reached where Server.client_uid is known to be Some"""
-    st = vf.state_at_term(b) or {}
+def known_evidence(f, body, st):
+    """the facts `st` say that Server.client_uid is Some"""
     for c in mir.calls(body):
         if c.is_("is_some", "is_none") and "Option" in c.callee and c.args and is_client_uid(body, f, c.args[0]):
             want = "true" if c.is_("is_some") else "false"
@@ -500,11 +500,10 @@ def known_evidence(f, body, vf, b):
     return False
 
 
-def empty_identity_evidence(body, vf, b, cmdkey):
-    """block b is only reached where the command's optional payload is None (empty identity)"""
+def empty_identity_evidence(st, cmdkey):
+    """the facts `st` say that the command's optional payload is None (empty identity)"""
     if cmdkey is None:
         return False
-    st = vf.state_at_term(b) or {}
     for k, vals in st.items():
         if k[0] == cmdkey[0] and len(k[1]) > len(cmdkey[1]) and k[1][:len(cmdkey[1])] == cmdkey[1] and vals == frozenset(["None"]):
             return True
@@ -513,12 +512,16 @@ def empty_identity_evidence(body, vf, b, cmdkey):
 
 def rule_cred(ctx, f, cea_root):
     body = code(ctx, f, cea_root, hs.has_call("auth_ok"), "calls auth_ok")
-    vf = hs.VarFacts(f, body)
+    vf = hs.vfacts(f, body)
     oks = [c for c in mir.calls(body) if c.callee == SERVER + "::auth_ok"]
     ctx.floor("CRED", "auth_ok call in check_external_auth", len(oks), 1)
     seeds = identity_seeds(f, body, cea_root)
     for c in oks:
-        found, why = uid_equal_evidence(f, body, vf, c.b, seeds)
+        found, why = True, ""
+        for st in vf.states_at_term(c.b):
+            ok1, why1 = uid_equal_evidence(f, body, st, seeds)
+            if not ok1:
+                found, why = False, why1
         ctx.ob("CRED", "check_external_auth:auth_ok-only-if-uid-known-and-equal", found,
                "auth_ok is reached only where client_uid is Some and equals the id parsed from the client's identity" if found else why,
                c.where)
@@ -555,22 +558,29 @@ def rule_auth_ok(ctx, f, handlers, cmdinfo, roots):
             else:
                 body = b
                 if b.id not in vfs:
-                    vfs[b.id] = hs.VarFacts(f, b)
+                    vfs[b.id] = hs.vfacts(f, b)
                 vf = vfs[b.id]
                 cmdkey = None
             mk = mech_keys(f, body, vf, had_root)
             st = vf.state_at_term(c.b) or {}
             desc = describe_site(f, body, vf, c.b, cmdkey, mk)
-            reason = None
-            if any(st.get(k) == frozenset(["Anonymous"]) for k in mk):
-                reason = "OK is sent under `configured mechanism == Anonymous`"
+            owner = f.bodies.get(root)
+            if cmdkey is not None:
+                seeds = {cmdkey[0]}      # inside a handler the identity is (part of) the command that was read
             else:
-                owner = f.bodies.get(root)
-                eq, why = uid_equal_evidence(f, body, vf, c.b, identity_seeds(f, body, owner) if owner is not None else set())
-                if eq:
-                    reason = "OK is sent only where client_uid is Some and equals the claimed identity"
-                elif known_evidence(f, body, vf, c.b) and empty_identity_evidence(body, vf, c.b, cmdkey):
-                    reason = "OK is sent for an empty identity only where client_uid is known (Some)"
+                seeds = identity_seeds(f, body, owner) if owner is not None else set()
+            # every combination of (mechanism, command) values under which the site is reached needs a reason
+            reasons = set()
+            for pst in vf.states_at_term(c.b):
+                if any(pst.get(k) == frozenset(["Anonymous"]) for k in mk):
+                    reasons.add("under `configured mechanism == Anonymous`")
+                elif uid_equal_evidence(f, body, pst, seeds)[0]:
+                    reasons.add("where client_uid is Some and equals the claimed identity")
+                elif known_evidence(f, body, pst) and empty_identity_evidence(pst, cmdkey):
+                    reasons.add("for an empty identity where client_uid is known (Some)")
+                else:
+                    reasons.add(None)
+            reason = None if (None in reasons or not reasons) else "OK is sent " + " / ".join(sorted(reasons))
             mechs = "|".join(sorted(set().union(*[st.get(k, frozenset(["?"])) for k in mk]))) if mk else "not tested here"
             ctx.ob("AUTH-OK", "auth_ok-site:%s[%s]:anonymous-or-credential-checked" % (rname, desc), reason is not None,
                    reason or ("OK is sent although the mechanism may be %s and neither `client_uid == claimed id` nor "
@@ -695,7 +705,7 @@ def rule_step(ctx, f, roots, handlers, cmdinfo, mech_cmps):
             continue
         key = "write:%s<-%s" % (v, short(root))
         if body.id not in vfs:
-            vfs[body.id] = hs.VarFacts(f, body)
+            vfs[body.id] = hs.vfacts(f, body)
         vf = vfs[body.id]
         st = vf.state_at_term(b) or {}
         if v == "WaitingForAuth":
@@ -755,7 +765,7 @@ def rule_step(ctx, f, roots, handlers, cmdinfo, mech_cmps):
 
 def rule_dispatch(ctx, f, roots):
     ns = code(ctx, f, roots["next_step"], hs.has_call("handle_auth"), "calls handle_auth")
-    vf = hs.VarFacts(f, ns)
+    vf = hs.vfacts(f, ns)
     keys = vf.enum_keys(STEP)
     ctx.ob("DISPATCH", "next_step:one-state-scrutinee", len(keys) == 1, "next_step matches on %d state value(s)" % len(keys), ns.where)
     if len(keys) != 1:
@@ -809,7 +819,7 @@ def rule_dispatch(ctx, f, roots):
 def rule_perform(ctx, f, roots):
     perf = ctx.one(f.find(name="perform", adt=SERVER, trait=HS + "Handshake"), "<Server as Handshake>::perform")
     body = code(ctx, f, perf, hs.has_call("next_step"), "calls next_step")
-    vf = hs.VarFacts(f, body)
+    vf = hs.vfacts(f, body)
     nsc = [c for c in mir.calls(body) if c.callee == roots["next_step"].id]
     ctx.ob("PERFORM", "server-perform:one-next_step-call", len(nsc) == 1, "%d call(s) of next_step" % len(nsc), body.where)
     aggs = [(b, i, rv, ln) for b, i, pl, rv, ln in mir.assignments(body) if rv[0] == "agg" and rv[1] == "adt" and rv[2] == AUTHD]
@@ -831,7 +841,7 @@ def rule_perform(ctx, f, roots):
                 if b.root == BUILDER_CONNECT:
                     # documented escape hatch `Builder::authenticated_socket`: the caller vouches for the
                     # socket; accepted only under the `authenticated` flag returned by target_connect()
-                    bvf = hs.VarFacts(f, b)
+                    bvf = hs.vfacts(f, b)
                     tcs = [c for c in mir.calls(b) if c.is_("target_connect")]
                     ok = False
                     for c in tcs:
@@ -864,7 +874,7 @@ def rule_helpers(ctx, f, roots):
                    "%s neither builds nor writes a command (%d candidate bodies)" % (h, len(cands)), roots[h].where)
             continue
         body = cands[0]
-        vf = hs.VarFacts(f, body)
+        vf = hs.vfacts(f, body)
         wcs = [c for c in mir.calls(body) if c.callee == COMMON + "::write_command"]
         good = []
         for c in wcs:
@@ -939,7 +949,7 @@ def rule_parse(ctx, f, handlers, cmdinfo, roots):
     rcs = code(ctx, f, rcs_root, hs.has_call("recvmsg"), "calls recvmsg")
     parse = [c for c in mir.calls(rcs) if (c.is_("parse") and CMD in c.fnargs) or c.callee == "<%s as core::str::traits::FromStr>::from_str" % CMD]
     ctx.floor("PARSE", "parse of a line into Command in read_commands", len(parse), 1)
-    vf = hs.VarFacts(f, rcs)
+    vf = hs.vfacts(f, rcs)
     escapes = False
     for c in parse:
         br = hs.try_of(rcs, c)
@@ -951,8 +961,6 @@ def rule_parse(ctx, f, handlers, cmdinfo, roots):
         seen = vf.reach([br.b], within=within)
         if seen & resid:
             escapes = True
-    # read_command forwards read_commands' error
-    rc_root = ctx.one(f.find(name="read_command", adt=COMMON, trait=""), "Common::read_command")
     # handlers: error of read_command leaves without reply
     for hname, (root, body, hvf) in handlers.items():
         key, rc, br = cmdinfo[hname]
@@ -971,7 +979,7 @@ def rule_parse(ctx, f, handlers, cmdinfo, roots):
     fs = ctx.one(f.find(name="from_str", adt=CMD, trait="core::str::traits::FromStr"), "<Command as FromStr>::from_str")
     mp = [c for c in mir.calls(fs) if (c.is_("parse") and MECH in c.fnargs) or c.callee == "<%s as core::str::traits::FromStr>::from_str" % MECH]
     ctx.floor("PARSE", "parse of the mechanism name in Command::from_str", len(mp), 1)
-    fvf = hs.VarFacts(f, fs)
+    fvf = hs.vfacts(f, fs)
     for c in mp:
         br = hs.try_of(fs, c)
         bad = False
@@ -979,7 +987,6 @@ def rule_parse(ctx, f, handlers, cmdinfo, roots):
             within = fvf.blocks_where((br.dest[0], ()), "Break")
             seen = fvf.reach([br.b], within=within)
             bad = bool(seen & residual_blocks(fs))
-        hb = handlers["handle_auth"]
         ctx.ob("PARSE", "unknown-mechanism-is-rejected", not (bad and escapes),
                "an AUTH line naming an unknown mechanism still yields a Command (and is then REJECTED)" if not (bad and escapes) else
                "AuthMechanism::from_str failing makes Command::from_str return Err: `AUTH <unknown mechanism>` aborts the handshake "
@@ -1017,7 +1024,7 @@ def check_config(ctx, f):
     handlers = {}
     for h in ("handle_auth", "handle_auth_data", "finalize"):
         body = code(ctx, f, roots[h], hs.has_call("read_command"), "calls read_command")
-        handlers[h] = (roots[h], body, hs.VarFacts(f, body))
+        handlers[h] = (roots[h], body, hs.vfacts(f, body))
     cmdinfo = rule_arms(ctx, f, handlers)
     cmps = rule_mech(ctx, f, handlers, cmdinfo)
     rule_cred(ctx, f, roots["check_external_auth"])
@@ -1030,5 +1037,6 @@ def check_config(ctx, f):
     rule_fd(ctx, f, handlers, cmdinfo)
     rule_parse(ctx, f, handlers, cmdinfo, roots)
     hs.rule_read_n(ctx, f)
+    hs.rule_wire(ctx, f)
     n = hs.panic_audit(ctx, f, PANIC_SCOPE, dict(hs.COMMON_PANIC_OK), STATE_ASSERTS)
     ctx.floor("PANIC", "panic-capable constructs audited in the server handshake modules", n, 8)
